@@ -133,6 +133,9 @@ variable {N : Nat}
 /-- New position after consuming at least one token. -/
 abbrev Adv (c : PCtx N) (p : Nat) := { q : Nat // c.toks.size - q < c.toks.size - p }
 
+/-- New position after consuming zero or more tokens. -/
+abbrev AdvLe (c : PCtx N) (p : Nat) := AdvLe c p
+
 /-- `self.next()` when the current token is not `eof`. -/
 def nextTok (c : PCtx N) (p : Nat) : Option (Token N × Adv c p) :=
   if h : p < c.toks.size then some (c.toks[p], ⟨p + 1, by omega⟩) else none
@@ -283,6 +286,20 @@ def parseDefault (c : PCtx N) (p : Nat) : Except (Err N) (Default × Adv c p) :=
         | .ok (ds, q2) => .ok (.vec ds, ⟨q2.1, by have := q.2; have := q1.2; have := q2.2; omega⟩)
     else .error (t.line, .badDefault)
 
+/-- The `= value` part of a facet: `True` when absent. -/
+def parseFacetValue (c : PCtx N) (p : Nat) : Except (Err N) (FacetVal × AdvLe c p) :=
+  match accept c (.punct '=') p with
+  | none => .ok (.flag, ⟨p, Nat.le_refl _⟩)
+  | some q2 =>
+    match nextTok c q2.1 with
+    | none => .error (c.eofLine, .facetValue)
+    | some (vt, q3) =>
+      have h3 : c.toks.size - q3.1 ≤ c.toks.size - p := by have := q2.2; have := q3.2; omega
+      if vt.kind = .string then .ok (.str (stripQuotes vt.value), ⟨q3.1, h3⟩)
+      else if vt.kind = .ident then .ok (.str vt.value, ⟨q3.1, h3⟩)
+      else if vt.kind = .number then .ok (.num (pyFloat vt.value.toList), ⟨q3.1, h3⟩)
+      else .error (vt.line, .facetValue)
+
 /-- `parse_facets` after the `(` has been accepted; `acc` holds the facets read so far, in order. -/
 def parseFacets (c : PCtx N) (known : List String) (p : Nat) (acc : Facets) :
     Except (Err N) (Facets × Adv c p) :=
@@ -292,30 +309,38 @@ def parseFacets (c : PCtx N) (known : List String) (p : Nat) (acc : Facets) :
     if t.value ∉ known then .error (t.line, .unknownFacet)
     else if t.value ∈ acc.map (·.1) then .error (t.line, .dupFacet)
     else
-      -- value
-      let cont (v : FacetVal) (q : Nat) (hq : c.toks.size - q < c.toks.size - p) :
-          Except (Err N) (Facets × Adv c p) :=
-        match accept c (.punct ')') q with
-        | some q' => .ok (acc ++ [(t.value, v)], ⟨q'.1, by have := q'.2; omega⟩)
+      match parseFacetValue c q1.1 with
+      | .error e => .error e
+      | .ok (v, q2) =>
+        match accept c (.punct ')') q2.1 with
+        | some q3 => .ok (acc ++ [(t.value, v)], ⟨q3.1, by have := q1.2; have := q2.2; have := q3.2; omega⟩)
         | none =>
-          match expect c (.punct ',') q with
+          match expect c (.punct ',') q2.1 with
           | .error e => .error e
-          | .ok (_, q') =>
-            match parseFacets c known q'.1 (acc ++ [(t.value, v)]) with
+          | .ok (_, q3) =>
+            match parseFacets c known q3.1 (acc ++ [(t.value, v)]) with
             | .error e => .error e
-            | .ok (r, q'') => .ok (r, ⟨q''.1, by have := q'.2; have := q''.2; omega⟩)
-      match accept c (.punct '=') q1.1 with
-      | some q2 =>
-        match nextTok c q2.1 with
-        | none => .error (c.eofLine, .facetValue)
-        | some (vt, q3) =>
-          if vt.kind = .string then cont (.str (stripQuotes vt.value)) q3.1 (by have := q1.2; have := q2.2; have := q3.2; omega)
-          else if vt.kind = .ident then cont (.str vt.value) q3.1 (by have := q1.2; have := q2.2; have := q3.2; omega)
-          else if vt.kind = .number then cont (.num (pyFloat vt.value.toList)) q3.1 (by have := q1.2; have := q2.2; have := q3.2; omega)
-          else .error (vt.line, .facetValue)
-      | none => cont .flag q1.1 q1.2
+            | .ok (r, q4) => .ok (r, ⟨q4.1, by have := q1.2; have := q2.2; have := q3.2; have := q4.2; omega⟩)
 termination_by c.toks.size - p
-decreasing_by all_goals (have := q'.2; omega)
+decreasing_by have := q1.2; have := q2.2; have := q3.2; omega
+
+/-- `self.parse_facets(known) if self.accept('(') else {}` -/
+def parseOptFacets (c : PCtx N) (known : List String) (p : Nat) : Except (Err N) (Facets × AdvLe c p) :=
+  match accept c (.punct '(') p with
+  | none => .ok ([], ⟨p, Nat.le_refl _⟩)
+  | some q1 =>
+    match parseFacets c known q1.1 [] with
+    | .error e => .error e
+    | .ok (fs, q2) => .ok (fs, ⟨q2.1, by have := q1.2; have := q2.2; omega⟩)
+
+/-- `self.parse_default() if self.accept('=') else None` -/
+def parseOptDefault (c : PCtx N) (p : Nat) : Except (Err N) (Option Default × AdvLe c p) :=
+  match accept c (.punct '=') p with
+  | none => .ok (none, ⟨p, Nat.le_refl _⟩)
+  | some q1 =>
+    match parseDefault c q1.1 with
+    | .error e => .error e
+    | .ok (d, q2) => .ok (some d, ⟨q2.1, by have := q1.2; have := q2.2; omega⟩)
 
 /-- `parse_attr` (the name token has been read). -/
 def parseAttr (c : PCtx N) (nameTok : Token N) (p : Nat) : Except (Err N) (Attr N × Adv c p) :=
@@ -325,30 +350,20 @@ def parseAttr (c : PCtx N) (nameTok : Token N) (p : Nat) : Except (Err N) (Attr 
     match parseType c q1.1 with
     | .error e => .error e
     | .ok ((ty, tg, ar), q2) =>
-      have h2 : c.toks.size - q2.1 < c.toks.size - p := by have := q1.2; have := q2.2; omega
-      -- default
-      let afterDefault (d : Option Default) (q : Nat) (hq : c.toks.size - q < c.toks.size - p) :
-          Except (Err N) (Attr N × Adv c p) :=
-        match accept c (.punct '(') q with
-        | none => .ok (⟨nameTok.value, ty, tg, ar, d, [], docFor c nameTok.line, nameTok.line⟩, ⟨q, hq⟩)
-        | some q' =>
-          match parseFacets c KNOWN_FACETS q'.1 [] with
-          | .error e => .error e
-          | .ok (fs, q'') =>
-            .ok (⟨nameTok.value, ty, tg, ar, d, fs, docFor c nameTok.line, nameTok.line⟩,
-                 ⟨q''.1, by have := q'.2; have := q''.2; omega⟩)
-      match accept c (.punct '=') q2.1 with
-      | none => afterDefault none q2.1 h2
-      | some q3 =>
-        match parseDefault c q3.1 with
+      match parseOptDefault c q2.1 with
+      | .error e => .error e
+      | .ok (d, q3) =>
+        match parseOptFacets c KNOWN_FACETS q3.1 with
         | .error e => .error e
-        | .ok (d, q4) => afterDefault (some d) q4.1 (by have := q3.2; have := q4.2; omega)
+        | .ok (fs, q4) =>
+          .ok (⟨nameTok.value, ty, tg, ar, d, fs, docFor c nameTok.line, nameTok.line⟩,
+               ⟨q4.1, by have := q1.2; have := q2.2; have := q3.2; have := q4.2; omega⟩)
 
 /-! ## members -/
 
 /-- `while self.accept('+'): bundle.append(self.expect('ident').value)`; `acc` reversed. -/
 def parseBundleLoop (c : PCtx N) (p : Nat) (acc : List String) :
-    Except (Err N) (List String × { q : Nat // c.toks.size - q ≤ c.toks.size - p }) :=
+    Except (Err N) (List String × AdvLe c p) :=
   match accept c (.punct '+') p with
   | none => .ok (acc.reverse, ⟨p, Nat.le_refl _⟩)
   | some q1 =>
@@ -364,7 +379,7 @@ decreasing_by have := q1.2; have := q2.2; omega
 /-- `while self.peek().kind == 'ident' and self.peek().line == token.line:` — the bundles of a
     constraint (single-line construct); `acc` reversed. -/
 def parseBundles (c : PCtx N) (line : Line N) (p : Nat) (acc : List (List String)) :
-    Except (Err N) (List (List String) × { q : Nat // c.toks.size - q ≤ c.toks.size - p }) :=
+    Except (Err N) (List (List String) × AdvLe c p) :=
   match nextTok c p with
   | none => .ok (acc.reverse, ⟨p, Nat.le_refl _⟩)
   | some (t, q1) =>
@@ -514,7 +529,7 @@ def parseEnum (c : PCtx N) (line : Line N) (p : Nat) : Except (Err N) (Enum N ×
                   ⟨q3.1, by have := q1.2; have := q2.2; have := q3.2; omega⟩)
 
 /-- `bool(self.accept('ident', 'variant'))` -/
-def acceptVariant (c : PCtx N) (p : Nat) : Bool × { q : Nat // c.toks.size - q ≤ c.toks.size - p } :=
+def acceptVariant (c : PCtx N) (p : Nat) : Bool × AdvLe c p :=
   match nextTok c p with
   | some (t, q) =>
     if t.kind = .ident ∧ t.value = "variant" then (true, ⟨q.1, by have := q.2; omega⟩)
@@ -543,21 +558,17 @@ def parseElement (c : PCtx N) (line : Line N) (p : Nat) : Except (Err N) (Elemen
   match parseNameColon c p with
   | .error e => .error e
   | .ok ((name, spec), q1) =>
-    let body (fs : Facets) (q : Nat) (hq : c.toks.size - q < c.toks.size - p) :
-        Except (Err N) (Element N × Adv c p) :=
-      match expect c (.punct '{') q with
+    match parseOptFacets c ELEMENT_FACETS q1.1 with
+    | .error e => .error e
+    | .ok (fs, q2) =>
+      match expect c (.punct '{') q2.1 with
       | .error e => .error e
-      | .ok (_, q2) =>
-        match parseMembers c true q2.1 [] with
+      | .ok (_, q3) =>
+        match parseMembers c true q3.1 [] with
         | .error e => .error e
-        | .ok (ms, q3) =>
-          .ok (⟨name, spec, fs, ms, docFor c line, line⟩, ⟨q3.1, by have := q2.2; have := q3.2; omega⟩)
-    match accept c (.punct '(') q1.1 with
-    | none => body [] q1.1 q1.2
-    | some q2 =>
-      match parseFacets c ELEMENT_FACETS q2.1 [] with
-      | .error e => .error e
-      | .ok (fs, q3) => body fs q3.1 (by have := q1.2; have := q2.2; have := q3.2; omega)
+        | .ok (ms, q4) =>
+          .ok (⟨name, spec, fs, ms, docFor c line, line⟩,
+               ⟨q4.1, by have := q1.2; have := q2.2; have := q3.2; have := q4.2; omega⟩)
 
 /-- The `while self.peek().kind != 'eof'` loop of `parse`; the accumulators are reversed. -/
 def parseDecls (c : PCtx N) (p : Nat) (es : List (Enum N)) (gs : List (Group N)) (ls : List (Element N)) :
